@@ -1114,4 +1114,58 @@ theorem nameOkItem_iff (lex : Name → Lex) :
   | .use _ => by simp [nameOkItem, NameValidItem]
 end
 
+/-! ## reordering -/
+
+/-- Reordering of the items of a library at any level: generated by adjacent
+    swaps, at the top or inside a module or impl block (every permutation of
+    every item list is a composition of these). -/
+inductive Shuffle : Items → Items → Prop
+  | refl (is : Items) : Shuffle is is
+  | trans {a b c : Items} : Shuffle a b → Shuffle b c → Shuffle a c
+  | swap (i j : Item) (is : Items) : Shuffle (.cons i (.cons j is)) (.cons j (.cons i is))
+  | tail (i : Item) {is is' : Items} : Shuffle is is' → Shuffle (.cons i is) (.cons i is')
+  | inModule (n : Name) {ch ch' : Items} (is : Items) :
+      Shuffle ch ch' → Shuffle (.cons (.module n ch) is) (.cons (.module n ch') is)
+  | inImpl (ty : TyId) {ch ch' : Items} (is : Items) :
+      Shuffle ch ch' → Shuffle (.cons (.impl ty ch) is) (.cons (.impl ty ch') is)
+
+def Leaf : Item → Prop
+  | .function _ _ _ _ => True
+  | .constant _ _ _ => True
+  | .type _ _ => True
+  | _ => False
+
+theorem itemAt_shuffle {a b : Items} (h : Shuffle a b) :
+    ∀ {p : List Name} {x : Item}, Leaf x → ItemAt a p x → ItemAt b p x := by
+  induction h with
+  | refl => intro p x _ hx; exact hx
+  | trans _ _ ih1 ih2 => intro p x hl hx; exact ih2 hl (ih1 hl hx)
+  | swap i j is =>
+    intro p x _ hx
+    cases hx with
+    | here => exact .there _ (.here _ _)
+    | there _ h1 =>
+      cases h1 with
+      | here => exact .here _ _
+      | there _ h2 => exact .there _ (.there _ h2)
+      | inside n is' h2 => exact .inside n _ h2
+    | inside n is' h1 => exact .there _ (.inside n _ h1)
+  | tail i _ ih =>
+    intro p x hl hx
+    cases hx with
+    | here => exact .here _ _
+    | there _ h1 => exact .there _ (ih hl h1)
+    | inside n is' h1 => exact .inside n _ h1
+  | inModule n is _ ih =>
+    intro p x hl hx
+    cases hx with
+    | here => exact absurd hl (by simp [Leaf])
+    | there _ h1 => exact .there _ h1
+    | inside n' is' h1 => exact .inside n _ (ih hl h1)
+  | inImpl ty is _ ih =>
+    intro p x hl hx
+    cases hx with
+    | here => exact absurd hl (by simp [Leaf])
+    | there _ h1 => exact .there _ h1
+
 end RotoV.Reg
